@@ -13,6 +13,7 @@ mod c08;
 mod c10;
 mod groups;
 mod c11;
+mod c12;
 mod c14;
 mod c19;
 mod c20;
@@ -38,6 +39,8 @@ fn main() {
         ("C10", "replay") => c10::replay(rest),
         ("C10", "drive") => c10::drive(rest),
         ("C11", "drive") => c11::drive(rest),
+        ("C12", "drive") => c12::drive_c12(rest),
+        ("C13", "drive") => c12::drive_c13(rest),
         ("C14", "replay") => c14::replay(rest),
         ("C14", "drive") => c14::drive(rest),
         ("C19", "replay") => c19::replay(rest),
